@@ -27,16 +27,28 @@ def insAsc (v : Int) : List Int → List Int
 
 def sortAsc (l : List Int) : List Int := l.foldr insAsc []
 
+/-- Above these sizes the list-based model (insertion sort, `List.set`: quadratic) takes more
+than a few seconds in the compiled driver and declines to predict; the harness then relies on
+the oracle alone (`skip large-n`).  Measured: Greedy ≈ 8 s and two-way KK ≈ 19 s at n = 20 001;
+k-way KK ≈ (n·k)² / 10⁹ s. -/
+def maxN : Nat := 21000
+def maxNK : Nat := 13000
+
 /-- ops:
 * `greedy <i64|f64> <k> <n> <w…> <m> <p…>` → `ok <ids>` | `lenmismatch`
   (the weight type only matters on the Rust side: `f64` runs use the same
   integer values converted exactly)
+* `greedyf <k> <n> <f64 bit patterns, hex…> <m> <p…>`: weights whose sums are not exact in
+  `f64`; the integer model does not apply → `skip` (oracle only)
 * `kk <k> <ids|loads> <n> <w…> <m> <p…>` → `ok ids <ids>` | `ok loads <sorted loads>`
-  | `lenmismatch` | `panic` -/
+  | `lenmismatch` | `panic`
+Large cases (see `maxN`, `maxNK`) → `skip large-n (oracle only)`. -/
 def handle (toks : List String) : String :=
   match toks with
+  | "greedyf" :: _ => "skip float-inexact (oracle only)"
   | "greedy" :: ty :: k :: rest =>
     if ty ≠ "i64" ∧ ty ≠ "f64" then "bad-op" else
+    if (rest.head?.bind parseNat?).getD 0 > maxN then "skip large-n (oracle only)" else
     match (do let k ← parseNat? k; let (ws, p) ← parseArrays rest; pure (k, ws, p)) with
     | none => "bad-op"
     | some (k, ws, p) =>
@@ -45,6 +57,9 @@ def handle (toks : List String) : String :=
       | .lenMismatch => "lenmismatch"
   | "kk" :: k :: cmp :: rest =>
     if cmp ≠ "ids" ∧ cmp ≠ "loads" then "bad-op" else
+    let n := (rest.head?.bind parseNat?).getD 0
+    let kk := (parseNat? k).getD 0
+    if n > maxN ∨ (kk ≥ 3 ∧ n ≥ 2 ∧ n * kk > maxNK) then "skip large-n (oracle only)" else
     match (do let k ← parseNat? k; let (ws, p) ← parseArrays rest; pure (k, ws, p)) with
     | none => "bad-op"
     | some (k, ws, p) =>
